@@ -416,7 +416,10 @@ def f6(run, project):
                node=mod.tree, func="<module>", construct=f"{k} constant")
     fn = mod.function("parse_hex_string")
     loops = [s_ for s_ in fn.body if isinstance(s_, ast.While)]
-    run.require(len(loops) == 1, "F6: scanner loop not found")
+    if len(loops) != 1:
+        raise AnalysisError("F6: the swtpm scanner is no longer one `while` loop over a state variable with the marker / value "
+                            "accumulators the transition table is stated over (a rewrite of the scanner's state representation is "
+                            "not recognised: the documented automaton cannot be compared)")
     lp = loops[0]
     # the scanner's states: whatever distinct constants `state` is set to / compared with - module-level ints, members of an
     # Enum ... (they are told apart below by their place in the automaton, not by their names)
